@@ -13,6 +13,7 @@ import tomllib
 from collections import Counter, defaultdict
 
 from . import common as K
+from .facts import place_fields as K_place_fields
 from .facts import Call, operand_local, is_const, const_val
 
 HERE = os.path.dirname(os.path.abspath(__file__))
@@ -351,7 +352,7 @@ def discharge_by_pattern(crate, e):
         if why:
             return why
     if e.kind == "index":
-        why = const_ascii_prefix(b, e.meta["call"])
+        why = const_ascii_prefix(b, e.meta["call"]) or index_in_own_range(b, e.meta["call"])
         if why:
             return why
     if e.kind == "duration-ctor":
@@ -497,6 +498,49 @@ def index_below_len(b, ops, at):
         if okc and not subs:
             return "len(X) - (idx + <=1) with idx an enumerate() index over X's own elements (idx + 1 <= len)"
     return None
+
+
+def index_in_own_range(b, c):
+    """`X[idx]` where idx is the item of a loop over `0..X.len()` and X is not changed inside that loop (the index form of
+    `for (idx, item) in X.iter().enumerate()`): idx < len."""
+    if len(c.args) < 2:
+        return None
+    isl = b.slice_args(c, [1], through_calls=False)
+    nxt = [k for k in isl.calls if k.matches(r"std::iter::Iterator::next")]
+    if len(nxt) != 1 or len(isl.calls) != 1 or [a for a in isl.atoms if a[0] in ("binop", "unop")]:
+        return None
+    nx = nxt[0]
+    if "Range<usize>" not in ((nx.callee.get("self_ty") or "") + " ".join(nx.callee.get("targs", []))):
+        return None
+    rsl = b.slice_args(nx, [0])
+    rng = [d for d in rsl.defs if d["kind"] == "assign" and d["rv"]["k"] == "agg" and d["rv"].get("adt") in ("std::ops::Range", "core::ops::Range")]
+    if len(rng) != 1 or len(rng[0]["rv"]["ops"]) != 2 or const_val(rng[0]["rv"]["ops"][0]) != 0:
+        return None
+    esl = b.slice(rng[0]["rv"]["ops"][1], at=rng[0]["bb"])
+    lens = [k for k in esl.calls if K.meth(k.path) == "len"]
+    if len(lens) != 1 or [a for a in esl.atoms if a[0] in ("binop", "unop")] or [k for k in esl.calls if k is not lens[0] and not k.matches(r".*[Dd]eref.*")]:
+        return None
+    refs = b.ref_origins()
+
+    def field_paths(op):
+        l = operand_local(op)
+        return {tuple(tp) if isinstance(tp, (list, tuple)) else (tp,) for tl, tp in refs.get(l, ()) if tp} if l is not None else set()
+    x_len, x_idx = field_paths(lens[0].args[0]), field_paths(c.args[0])
+    if not x_len or not (x_len & x_idx):
+        return None
+    names = {p_[-1] for p_ in (x_len & x_idx) if p_}
+    loop = {nx.bb} | {x for x in b.reach_after(nx.bb) if nx.bb in b.reach_after(x)}
+    for k in b.calls():
+        if k.bb not in loop:
+            continue
+        for a in k.args:
+            l = operand_local(a)
+            if l is not None and b.locals[l]["ty"].startswith("&mut") and any(tp and (tp[-1] if isinstance(tp, (list, tuple)) else tp) in names for tl, tp in refs.get(l, ())):
+                return None
+    for i, j, st in b.assigns():
+        if i in loop and any(f[2] in names for f in K_place_fields(st["lhs"])):
+            return None
+    return "index taken from a loop over 0..X.len() of the indexed sequence X, which the loop does not change (idx < len)"
 
 
 def nonzero_const(b, op, at):
